@@ -190,7 +190,7 @@ Lemma convert_network_inv norm nf rules :
   convert_network norm nf = Ok (COk rules) ->
   exists raw url ifd unl,
     nf_raw nf = Some raw /\
-    url_filter_ast nf = Ok (COk url) /\
+    url_filter_final nf = Ok (COk url) /\
     (ifd = None \/ unl = None) /\
     ((nf_has_dom nf || nf_has_notdom nf = true /\ reparse_domains norm raw = Ok (COk (ifd, unl))) \/
      (nf_has_dom nf || nf_has_notdom nf = false /\ ifd = None /\ unl = None)) /\
@@ -202,7 +202,7 @@ Proof.
   unfold convert_network. intros H.
   destruct (nf_raw nf) as [raw|]; [|discriminate].
   repeat match type of H with (if ?b then _ else _) = _ => destruct b; [discriminate|] end.
-  destruct (url_filter_ast nf) as [[url|e]|w]; cbn [conv_bind] in H; [| discriminate..].
+  destruct (url_filter_final nf) as [[url|e]|w]; cbn [conv_bind] in H; [| discriminate..].
   set (doms := if nf_has_dom nf || nf_has_notdom nf then reparse_domains norm raw else Ok (COk (None, None))) in H.
   assert (D : forall ifd unl, doms = Ok (COk (ifd, unl)) ->
      (nf_has_dom nf || nf_has_notdom nf = true /\ reparse_domains norm raw = Ok (COk (ifd, unl))) \/
@@ -263,7 +263,7 @@ Proof. intros H. destruct (convert_network_inv _ _ _ H) as (raw & url & ifd & un
 
 Theorem convert_network_url norm nf rules :
   convert_network norm nf = Ok (COk rules) ->
-  exists url, url_filter_ast nf = Ok (COk url) /\ forall r, In r rules -> r_url r = url.
+  exists url, url_filter_final nf = Ok (COk url) /\ forall r, In r rules -> r_url r = url.
 Proof.
   intros H. destruct (convert_network_inv _ _ _ H) as (raw & url & ifd & unl & _ & U & _ & _ & _ & _ & F & _).
   exists url. split; [exact U|]. rewrite Forall_forall in F. intros r I. apply F. exact I.
@@ -570,28 +570,44 @@ Proof.
     cbn [forallb]; rewrite ?forallb_app; cbn [forallb]; rewrite ?part_items_wf; rewrite ?lits_wf by exact HO; reflexivity.
 Qed.
 
-Theorem url_filter_wf nf r :
-  url_filter_ast nf = Ok (COk r) -> host_ok nf = true -> empty_filter_class nf = false -> regex_wf r = true.
+Lemma url_filter_final_inv nf u :
+  url_filter_final nf = Ok (COk u) ->
+  exists r, url_filter_ast nf = Ok (COk r) /\ u = (if is_nil (print_regex r) then match_all else r).
 Proof.
-  intros H HO E. unfold regex_wf. rewrite (url_filter_items_wf nf r H HO). cbn [andb].
-  unfold empty_filter_class in E. rewrite H in E. rewrite E. reflexivity.
+  unfold url_filter_final. destruct (url_filter_ast nf) as [[r|e]|w]; intros H; try discriminate.
+  injection H as <-. exists r. auto.
+Qed.
+
+(* the final url-filter is never the empty text (fix 26d3d76) and always well-formed *)
+Theorem url_filter_wf nf u :
+  url_filter_final nf = Ok (COk u) -> host_ok nf = true -> regex_wf u = true.
+Proof.
+  intros H HO. destruct (url_filter_final_inv nf u H) as (r & R & ->).
+  destruct (is_nil (print_regex r)) eqn:E; [reflexivity|].
+  unfold regex_wf. rewrite (url_filter_items_wf nf r R HO), E. reflexivity.
+Qed.
+
+Theorem url_filter_nonempty nf u : url_filter_final nf = Ok (COk u) -> print_regex u <> [].
+Proof.
+  intros H. destruct (url_filter_final_inv nf u H) as (r & R & ->).
+  destruct (is_nil (print_regex r)) eqn:E; [discriminate|]. intros K. rewrite K in E. discriminate.
 Qed.
 
 Theorem convert_network_subset norm nf rules r :
-  convert_network norm nf = Ok (COk rules) -> host_ok nf = true -> empty_filter_class nf = false ->
+  convert_network norm nf = Ok (COk rules) -> host_ok nf = true ->
   In r rules -> safari_ok (print_regex (r_url r)) = true.
 Proof.
-  intros H HO E I. destruct (convert_network_url _ _ _ H) as (url & U & F). rewrite (F r I).
+  intros H HO I. destruct (convert_network_url _ _ _ H) as (url & U & F). rewrite (F r I).
   apply printer_subset. eapply url_filter_wf; eauto.
 Qed.
 
 Theorem into_cb_subset norm idna nets coss rules used r :
   into_content_blocking norm idna true nets coss = Ok (Some (rules, used)) ->
-  Forall (fun nf => host_ok nf = true /\ empty_filter_class nf = false) nets ->
+  Forall (fun nf => host_ok nf = true) nets ->
   In r rules -> safari_ok (print_regex (r_url r)) = true.
 Proof.
   intros H FN I. destruct (into_cb_origin _ _ _ _ _ _ _ H I) as [(f & rs & J & C & K)|[(f & _ & C)| ->]].
-  - rewrite Forall_forall in FN. destruct (FN f J). eapply convert_network_subset; eauto.
+  - rewrite Forall_forall in FN. eapply convert_network_subset; eauto.
   - apply convert_cosmetic_inv in C. destruct C as (_ & -> & _). reflexivity.
   - reflexivity.
 Qed.
@@ -693,19 +709,17 @@ Theorem convert_network_rejects_non_ascii norm nf rules :
 Proof.
   intros H. destruct (convert_network_inv _ _ _ H) as (raw & url & ifd & unl & _ & U & _ & _ & A & _).
   apply andb_true_iff in A as [A _]. apply andb_true_iff in A as [A _].
-  eapply url_filter_rejects_non_ascii; eauto.
+  destruct (url_filter_final_inv nf url U) as (r & R & ->).
+  eapply url_filter_rejects_non_ascii; [exact R|].
+  destruct (is_nil (print_regex r)) eqn:E; [|exact A]. destruct (print_regex r); [reflexivity|discriminate].
 Qed.
 
 (* ================================================================== totality *)
-Lemma url_filter_total nf : lost_scheme_class nf = false -> is_ok (url_filter_ast nf) = true.
+Lemma url_filter_total nf : is_ok (url_filter_final nf) = true.
 Proof.
-  unfold lost_scheme_class, needs_scheme, scheme_ok, url_filter_ast.
+  unfold url_filter_final, url_filter_ast.
   destruct (nf_filter nf) as [|p|]; destruct (nf_hostname nf) as [h|]; try reflexivity;
-    destruct (has (nf_mask nf) M_IS_LEFT_ANCHOR); try reflexivity;
-    destruct (has (nf_mask nf) (N.lor M_FROM_HTTP M_FROM_HTTPS)); try reflexivity;
-    destruct (has (nf_mask nf) M_FROM_HTTP); try reflexivity;
-    destruct (has (nf_mask nf) M_FROM_HTTPS); try reflexivity;
-    destruct (has (nf_mask nf) M_FROM_WEBSOCKET); try reflexivity; intros H; discriminate H.
+    repeat match goal with |- context [if ?b then Ok _ else _] => destruct b; try reflexivity end.
 Qed.
 
 Lemma reparse_total norm raw : memN DOLLAR raw = true -> is_ok (reparse_domains norm raw) = true.
@@ -717,13 +731,13 @@ Proof.
 Qed.
 
 Theorem convert_network_total norm nf :
-  lost_scheme_class nf = false -> dollar_ok nf = true -> is_ok (convert_network norm nf) = true.
+  dollar_ok nf = true -> is_ok (convert_network norm nf) = true.
 Proof.
-  intros LS DO. unfold convert_network.
+  intros DO. unfold convert_network.
   destruct (nf_raw nf) as [raw|] eqn:R; [|reflexivity].
   repeat match goal with |- is_ok (if ?b then _ else _) = true => destruct b; [reflexivity|] end.
-  pose proof (url_filter_total nf LS) as U.
-  destruct (url_filter_ast nf) as [[url|e]|w]; [|reflexivity|discriminate]. cbn [conv_bind].
+  pose proof (url_filter_total nf) as U.
+  destruct (url_filter_final nf) as [[url|e]|w]; [|reflexivity|discriminate]. cbn [conv_bind].
   assert (D : is_ok (if nf_has_dom nf || nf_has_notdom nf then reparse_domains norm raw else Ok (COk (None, None))) = true).
   { unfold dollar_ok in DO. rewrite R in DO. destruct (nf_has_dom nf || nf_has_notdom nf); [|reflexivity].
     cbn [negb orb] in DO. apply reparse_total. exact DO. }
@@ -791,32 +805,34 @@ Proof.
 Qed.
 
 Theorem into_cb_total_concrete norm idna debug nets coss :
-  Forall (fun nf => nf_raw nf <> None /\ lost_scheme_class nf = false /\ dollar_ok nf = true) nets ->
+  Forall (fun nf => nf_raw nf <> None /\ dollar_ok nf = true) nets ->
   Forall (fun cf => cf_raw cf <> None /\ cos_ok cf = true) coss ->
   is_ok (into_content_blocking norm idna debug nets coss) = true.
 Proof.
   intros HN HC. unfold into_content_blocking. apply into_cb_total.
-  - eapply Forall_impl; [|exact HN]. intros nf (A & B & C). split; [exact A|]. apply convert_network_total; auto.
+  - eapply Forall_impl; [|exact HN]. intros nf (A & C). split; [exact A|]. apply convert_network_total; auto.
   - eapply Forall_impl; [|exact HC]. intros cf (A & B). split; [exact A|]. apply convert_cosmetic_total; auto.
 Qed.
 
-(* ================================================================== refutation witnesses (findings) *)
-(* `|ws://$~websocket` as parsed by the crate: mask 198399, empty filter, no hostname *)
+(* ================================================================== the two repaired findings (fix 26d3d76), as examples *)
+(* `|ws://$~websocket` as parsed by the crate: mask 198399, empty filter, no hostname.  It used to
+   hit unreachable!(); it is now a conversion error and the rule is skipped. *)
 Definition ws_neg_rule : netf :=
   mkNet 198399 FEmpty None false false (Some (bs "|ws://$~websocket")).
-Theorem cb_total_refuted : forall norm,
-  dollar_ok ws_neg_rule = true /\ host_ok ws_neg_rule = true /\ lost_scheme_class ws_neg_rule = true /\
-  convert_network norm ws_neg_rule = Panic UNREACHABLE /\
-  into_content_blocking norm norm true [ws_neg_rule] [] = Panic UNREACHABLE.
+Example ws_neg_rule_skipped : forall norm,
+  dollar_ok ws_neg_rule = true /\ host_ok ws_neg_rule = true /\
+  convert_network norm ws_neg_rule = Ok (CErr ENoSupportedNetworkOptions) /\
+  into_content_blocking norm norm true [ws_neg_rule] [] = Ok (Some ([], [])).
 Proof. intros norm. repeat split; vm_compute; reflexivity. Qed.
 
-(* `*^` as parsed by the crate: mask 466943, filter "^", no hostname *)
+(* `*^` as parsed by the crate: mask 466943, filter "^", no hostname.  It used to be exported with
+   the empty url-filter; it now carries ".*" *)
 Definition sep_only_rule : netf := mkNet 466943 (FSimple [CARET]) None false false (Some (bs "*^")).
-Theorem cb_subset_refuted : forall norm,
-  host_ok sep_only_rule = true /\ lost_scheme_class sep_only_rule = false /\ empty_filter_class sep_only_rule = true /\
-  exists r, convert_network norm sep_only_rule = Ok (COk [r]) /\ print_regex (r_url r) = [] /\
-            safari_ok (print_regex (r_url r)) = false.
-Proof. intros norm. repeat split; try (vm_compute; reflexivity). eexists. repeat split; vm_compute; reflexivity. Qed.
+Example sep_only_rule_match_all : forall norm,
+  host_ok sep_only_rule = true /\
+  exists r, convert_network norm sep_only_rule = Ok (COk [r]) /\ print_regex (r_url r) = bs ".*" /\
+            safari_ok (print_regex (r_url r)) = true.
+Proof. intros norm. split; [reflexivity|]. eexists. repeat split; vm_compute; reflexivity. Qed.
 
 (* ================================================================== examples: hypotheses are satisfiable *)
 Definition ex_mask : N := 204799.   (* default options: all network types, both parties, http+https *)
@@ -824,8 +840,7 @@ Definition ex_host_rule : netf :=
   mkNet (N.lor ex_mask (N.lor M_IS_HOSTNAME_ANCHOR M_IS_LEFT_ANCHOR)) (FSimple (bs "/ads*.js")) (Some (bs "foo.com"))
         true false (Some (bs "||foo.com/ads*.js$domain=a.com|b.com")).
 Example ex_host_rule_ok :
-  host_ok ex_host_rule = true /\ empty_filter_class ex_host_rule = false /\
-  lost_scheme_class ex_host_rule = false /\ dollar_ok ex_host_rule = true /\
+  host_ok ex_host_rule = true /\ dollar_ok ex_host_rule = true /\
   conv_out (convert_network (fun _ => None) ex_host_rule) =
     Ok (inl [mkOut 0 None (bs "^[^:]+:(//)?([^/]+\.)?foo\.com/ads.*\.js") false
                    (Some [bs "*a.com"; bs "*b.com"]) None None []]).
@@ -939,6 +954,14 @@ Proof.
   apply seq_app; [apply host_prefix_match; auto|]. apply seq_app; apply lits_match.
 Qed.
 
+(* ".*" (what an empty url-filter is replaced by) matches every URL *)
+Lemma match_all_matches url : ast_matches match_all url.
+Proof.
+  exists [], url, []. cbn [rx_start rx_body rx_end match_all]. rewrite app_nil_r. repeat split; try discriminate.
+  rewrite <- (app_nil_r url). constructor; [|constructor]. constructor. constructor.
+  apply forallb_forall. reflexivity.
+Qed.
+
 (* tie to the converter: every emitted rule carries that url-filter *)
 Theorem convert_network_plain_pattern norm nf rules p url r :
   convert_network norm nf = Ok (COk rules) -> In r rules ->
@@ -948,7 +971,8 @@ Theorem convert_network_plain_pattern norm nf rules p url r :
   ast_matches (r_url r) url.
 Proof.
   intros C I HH HF PL SC M. destruct (convert_network_url _ _ _ C) as (u & U & F). rewrite (F r I).
-  eapply plain_inclusion_pattern; eauto.
+  destruct (url_filter_final_inv nf u U) as (r0 & R & ->).
+  destruct (is_nil (print_regex r0)); [apply match_all_matches|]. eapply plain_inclusion_pattern; eauto.
 Qed.
 
 Theorem convert_network_plain_host norm nf rules h p url r :
@@ -959,7 +983,8 @@ Theorem convert_network_plain_host norm nf rules h p url r :
   ast_matches (r_url r) url.
 Proof.
   intros C I HH HR HF M. destruct (convert_network_url _ _ _ C) as (u & U & F). rewrite (F r I).
-  eapply plain_inclusion_host; eauto.
+  destruct (url_filter_final_inv nf u U) as (r0 & R & ->).
+  destruct (is_nil (print_regex r0)); [apply match_all_matches|]. eapply plain_inclusion_host; eauto.
 Qed.
 
 (* examples: the hypotheses are satisfiable *)
@@ -1006,8 +1031,8 @@ Proof.
 Qed.
 
 Example ex_total_hyps :
-  Forall (fun nf => nf_raw nf <> None /\ lost_scheme_class nf = false /\ dollar_ok nf = true) [ex_exception; ex_host_rule] /\
-  Forall (fun nf => host_ok nf = true /\ empty_filter_class nf = false) [ex_exception; ex_host_rule] /\
+  Forall (fun nf => nf_raw nf <> None /\ dollar_ok nf = true) [ex_exception; ex_host_rule] /\
+  Forall (fun nf => host_ok nf = true) [ex_exception; ex_host_rule] /\
   Forall (fun cf => cf_raw cf <> None /\ cos_ok cf = true) [ex_cosmetic].
 Proof. repeat split; repeat constructor; try discriminate; vm_compute; reflexivity. Qed.
 
